@@ -448,7 +448,8 @@ where
                 let rest_a: Vec<Val> = it.map(|x| R::render(x)).collect();
                 let rest_b: Vec<Val> = cl.map(|x| R::render(x)).collect();
                 let via_ref: Vec<Val> = (&self.fs).into_iter().map(|x| R::render(x)).collect();
-                let consistent = rest_a == rest_b && rest_a[..] == items[n / 2..] && via_ref == items;
+                let audit = crate::val::iter_audit(|| self.fs.iter(), |x| R::render(x), &items);
+                let consistent = rest_a == rest_b && rest_a[..] == items[n / 2..] && via_ref == items && audit.is_none();
                 format!("iter {} hints {} clone {}", Val::List(items).render(), hints_ok as u8, consistent as u8)
             }
             ("sextend", [form, v]) | ("sfrom", [form, v]) | ("sextendl", [form, v]) | ("sfroml", [form, v]) => {
@@ -510,6 +511,9 @@ impl<C: IndexContainer<usize> + IdxCaps + Clone + 'static> IdxEntry for C {
         let r = guard(|| {
             let len = Storage::len(self);
             let iter: Vec<usize> = self.iter().collect();
+            if let Some(m) = crate::val::iter_audit(|| self.iter(), |x| x, &iter) {
+                return format!("iter-inconsistent {}", m);
+            }
             let index: Vec<String> = (0..=len)
                 .map(|i| match guard(|| self.index(i)) {
                     Some(x) => x.to_string(),
@@ -565,6 +569,9 @@ impl StrideEntry {
     pub fn obs(&self) -> String {
         let len = self.0.len();
         let iter: Vec<usize> = self.0.iter().collect();
+        if let Some(m) = crate::val::iter_audit(|| self.0.iter(), |x| x, &iter) {
+            return format!("iter-inconsistent {}", m);
+        }
         let index: Vec<String> = (0..len)
             .map(|i| match guard(|| self.0.index(i)) {
                 Some(x) => x.to_string(),
